@@ -1,11 +1,11 @@
 package main
 
 import (
-	mbits "math/bits"
 	"fmt"
 	"go/token"
 	"go/types"
 	"math"
+	mbits "math/bits"
 	"regexp"
 	"sort"
 	"strconv"
